@@ -28,9 +28,23 @@ func runC08(cx *Ctx, r *Report) {
 				continue
 			}
 			n++
+			fs := x.w.FactsAt(x.ev.Fr, x.ev.Site)
 			_, g1 := x.fact(true, "sdk.AccAddress.Equals(addr(msg.Provider), addr("+req+".Provider))")
 			_, g2 := x.fact(true, "service/keeper.Keeper.IsRequestActive(keeper, hex.DecodeString(msg.RequestId)#0)")
 			_, g3 := x.fact(true, "service/keeper.Keeper.GetRequest(keeper, hex.DecodeString(msg.RequestId)#0) : ok")
+			if !g1 {
+				// the record may be loaded through any read-only getter of the request prefix
+				// keyed by the message's request id; a responder equal to the recorded provider
+				// of that record implies the record exists (an absent record has no provider)
+				if _, ok := cx.keyedRecordFact(fs, true, "sdk.AccAddress.Equals(addr(msg.Provider), addr(", ".Provider))", "service:RequestKey=0x13", "hex.DecodeString(msg.RequestId)#0"); ok {
+					g1, g3 = true, true
+				}
+			}
+			if !g2 {
+				if _, ok := cx.keyedRecordFact(fs, true, "", "", "service:ActiveRequestByIDKey=0x15", "hex.DecodeString(msg.RequestId)#0"); ok {
+					g2 = true
+				}
+			}
 			if !(g1 && g2 && g3) {
 				okAll = false
 				r.violate("answer-guards", "RespondService|"+x.ev.Kind+"|"+strings.Join(x.ev.Prefix, ","), x.ev.Pos(cx), fmt.Sprintf("%s reachable in RespondService without {request found: %v, responder == recorded provider: %v, request active: %v} on chain %s", x.ev.Kind, g3, g1, g2, x.ev.Fr.String()))
@@ -311,7 +325,15 @@ func (cx *Ctx) c08Callback(r *Report) {
 		r.violate("callback-threshold", "ResponseCallback", cx.P.Pos(sites[0].Pos()), fmt.Sprintf("%d callback invocations (expected the two sides of the threshold test)", len(sites)))
 	}
 	// F called only from the completion function G, under ModuleName != ""
-	callers := cx.CallersOf(F)
+	// (call sites in functions that no message, block or callback entry reaches - an exported
+	// convenience wrapper left for other modules - dispatch nothing on this chain)
+	liveReach := cx.Reachable(cx.entryFns(cx.EntriesOf("msg", "abci", "callback", "hook", "genesis")), nil)
+	var callers []CallSite
+	for _, c := range cx.CallersOf(F) {
+		if liveReach.Has(c.Caller) {
+			callers = append(callers, c)
+		}
+	}
 	okG := len(callers) == 1
 	var G *ssa.Function
 	if okG {
